@@ -1,5 +1,201 @@
-import EqlModel.Eval
-import EqlModel.Build
+/-
+  C02 — a multi-variable query returns exactly the satisfying assignments.
+
+  Theorems about the L1 model (`rows`), for an arbitrary `World`:
+    c02_rows_sound     every returned row is the projection of a satisfying assignment
+    c02_rows_complete  the projection of every satisfying assignment is returned
+    c02_rows_nodup     when every variable is selected no row is returned twice
+  Scope: flatten-free queries (flatten is C16); `c02_rows_sound` needs the hypothesis that every
+  variable that is not selected has a non-empty domain — at the excluded point the implementation
+  really differs from the relational reading (known finding C02-F1, `c02_empty_domain_witness`).
+-/
+import EqlModel.Lemmas.Disjoint
+
 namespace Eql
-theorem c02_placeholder : True := trivial
+variable {V : Type}
+variable (W : World V) (D : VarId → List V)
+
+/-- Truth of a query's condition (a query without conditions is always true). -/
+def Query.holds (q : Query V) (α : Asg V) : Bool :=
+  match q.cond with
+  | none => true
+  | some c => denote W α c
+
+def Query.condVars (q : Query V) : List VarId :=
+  match q.cond with
+  | none => []
+  | some c => c.vars
+
+def Query.noFlat (q : Query V) : Bool :=
+  Terms.noFlat q.sel && (match q.cond with | none => true | some c => c.noFlat)
+
+/-- An assignment is admissible for a query: every variable takes a value of its domain. -/
+def Query.Adm (q : Query V) (α : Asg V) : Prop :=
+  ∀ v ∈ q.condVars ++ Terms.vars q.sel, α v ∈ D v
+
+/-- **Soundness.** Every row is the projection of an admissible assignment that satisfies the
+    condition. -/
+theorem c02_rows_sound [Inhabited V] (q : Query V) (hf : q.noFlat = true)
+    (hne : ∀ v ∈ q.condVars, v ∉ Terms.vars q.sel → D v ≠ [])
+    (r : List V) (hr : r ∈ rows W D q) :
+    ∃ α, q.Adm D α ∧ q.holds W α = true ∧ r = termsVal W α q.sel := by
+  obtain ⟨sel, cond⟩ := q
+  simp only [Query.noFlat, Bool.and_eq_true] at hf
+  simp only [rows, List.mem_flatMap, List.mem_map] at hr
+  obtain ⟨p, hp, q2, hq2, hre⟩ := hr
+  -- the final binding and the assignment read off it
+  let α : Asg V := fun v => match q2.1.lookup v with
+    | some a => a
+    | none => (D v).head?.getD default
+  have hext : Ext q2.1 α := by
+    intro v a h; simp only [α, h]
+  have hb1 : BOk D p.1 := by
+    cases cond with
+    | none => simp at hp; rw [hp]; exact bok_nil D
+    | some c => exact cond_bok W D c hf.2 [] p.1 p.2 false (bok_nil D) hp
+  have hb2 : BOk D q2.1 := args_bok W D sel hf.1 p.1 q2.1 q2.2 hb1 hq2
+  have hs2 := args_sound W D sel hf.1 p.1 q2.1 q2.2 hq2 α hext
+  have hsupp := args_supp W D sel hf.1 p.1 q2.1 q2.2 hq2
+  have hadm : ∀ v ∈ Query.condVars ⟨sel, cond⟩ ++ Terms.vars sel, α v ∈ D v := by
+    intro v hv
+    cases hl : q2.1.lookup v with
+    | some a => simp only [α, hl]; exact hb2 v a hl
+    | none =>
+      have hnb : bound q2.1 v = false := by simp [bound, hl]
+      have hnsel : v ∉ Terms.vars sel := by
+        intro h; have := (hsupp v).2 (Or.inr h); rw [hnb] at this; cases this
+      have hcv : v ∈ Query.condVars ⟨sel, cond⟩ := by
+        rcases List.mem_append.1 hv with h | h
+        · exact h
+        · exact absurd h hnsel
+      have := hne v hcv hnsel
+      simp only [α, hl]
+      cases hd : D v with
+      | nil => exact absurd hd this
+      | cons o os => simp
+  refine ⟨α, hadm, ?_, ?_⟩
+  · cases cond with
+    | none => rfl
+    | some c =>
+      have hs := (cond_sound_complete W D c hf.2).1 [] p.1 p.2 false hp
+      have hf2 : p.2 = false := hs.1 rfl
+      have := (hs.2 α (fun v hv => hadm v (by simp [Query.condVars, hv])) hs2.1).2
+      simpa [Query.holds, hf2] using this
+  · rw [← hre, hs2.2]
+
+/-- **Completeness.** The projection of every admissible satisfying assignment is returned. -/
+theorem c02_rows_complete (q : Query V) (hf : q.noFlat = true)
+    (α : Asg V) (hadm : q.Adm D α) (hh : q.holds W α = true) :
+    termsVal W α q.sel ∈ rows W D q := by
+  obtain ⟨sel, cond⟩ := q
+  simp only [Query.noFlat, Bool.and_eq_true] at hf
+  simp only [rows, List.mem_flatMap, List.mem_map]
+  have hsel : ∀ v ∈ Terms.vars sel, α v ∈ D v := fun v hv => hadm v (by simp [hv])
+  cases cond with
+  | none =>
+    obtain ⟨q2, hq2, e2⟩ := args_complete W D sel hf.1 [] α (ext_nil α) hsel
+    have hs2 := args_sound W D sel hf.1 [] q2.1 q2.2 hq2 α e2
+    exact ⟨([], false), by simp, q2, hq2, hs2.2.symm⟩
+  | some c =>
+    have hcv : ∀ v ∈ c.vars, α v ∈ D v := fun v hv => hadm v (by simp [Query.condVars, hv])
+    obtain ⟨p, hp, e1⟩ := (cond_sound_complete W D c hf.2).2 [] α false (ext_nil α) hcv
+      (Or.inr (by simpa [Query.holds] using hh))
+    obtain ⟨q2, hq2, e2⟩ := args_complete W D sel hf.1 p.1 α e1 hsel
+    have hs2 := args_sound W D sel hf.1 p.1 q2.1 q2.2 hq2 α e2
+    exact ⟨p, hp, q2, hq2, hs2.2.symm⟩
+
+/-- The assignment read off a binding. -/
+def asgOfBnd [Inhabited V] (β : Bnd V) : Asg V := fun v => (β.lookup v).getD default
+
+theorem ext_asgOfBnd [Inhabited V] (β : Bnd V) : Ext β (asgOfBnd β) := by
+  intro v a h; simp [asgOfBnd, h]
+
+theorem termsVal_vars (α : Asg V) (vs : List VarId) :
+    termsVal W α (vs.map Term.var) = vs.map α := by
+  induction vs with
+  | nil => rfl
+  | cons v vs ih => simp [termsVal, termVal, ih]
+
+theorem terms_vars_vars (vs : List VarId) : Terms.vars (vs.map (Term.var (V := V))) = vs := by
+  induction vs with
+  | nil => rfl
+  | cons v vs ih => simp [Terms.vars, Term.vars, ih]
+
+theorem terms_noFlat_vars (vs : List VarId) : Terms.noFlat (vs.map (Term.var (V := V))) = true := by
+  induction vs with
+  | nil => rfl
+  | cons v vs ih => simp [Terms.noFlat, Term.noFlat, ih]
+
+/-- Two final bindings that bind only selected variables and produce the same row are extended
+    by one assignment. -/
+private theorem same_row_compat [Inhabited V] (vs : List VarId) (β1 β2 b1 b2 : Bnd V) (r1 r2 : List V)
+    (h1 : (b1, r1) ∈ evalArgs W D (vs.map Term.var) β1)
+    (h2 : (b2, r2) ∈ evalArgs W D (vs.map Term.var) β2)
+    (hsupp : ∀ w, bound b2 w = true → w ∈ vs) (he : r1 = r2) :
+    ∃ α, Ext b1 α ∧ Ext b2 α := by
+  refine ⟨asgOfBnd b1, ext_asgOfBnd b1, ?_⟩
+  have s1 := (args_sound W D _ (terms_noFlat_vars vs) β1 b1 r1 h1 _ (ext_asgOfBnd b1)).2
+  have s2 := (args_sound W D _ (terms_noFlat_vars vs) β2 b2 r2 h2 _ (ext_asgOfBnd b2)).2
+  rw [termsVal_vars] at s1 s2
+  have hm : vs.map (asgOfBnd b1) = vs.map (asgOfBnd b2) := by rw [s1, s2, he]
+  intro v a hv
+  have hvs : v ∈ vs := hsupp v (by simp [bound, hv])
+  have := List.map_inj_left.1 hm v hvs
+  rw [this]
+  exact ext_asgOfBnd b2 v a hv
+
+private theorem nodup_of_outs [Inhabited V] (hD : ∀ v, (D v).Nodup) (vs : List VarId)
+    (outs : List (Bnd V × Bool)) (hpw : outs.Pairwise Inc)
+    (hsupp : ∀ p ∈ outs, ∀ w, bound p.1 w = true → w ∈ vs) :
+    (outs.flatMap fun p => (evalArgs W D (vs.map Term.var) p.1).map (·.2)).Pairwise (fun x y => x ≠ y) := by
+  rw [List.pairwise_flatMap]
+  have hfinal : ∀ p ∈ outs, ∀ q2 ∈ evalArgs W D (vs.map Term.var) p.1,
+      ∀ w, bound q2.1 w = true → w ∈ vs := by
+    intro p hp q2 hq2 w hw
+    rcases (args_supp W D _ (terms_noFlat_vars vs) p.1 q2.1 q2.2 hq2 w).1 hw with h | h
+    · exact hsupp p hp w h
+    · rwa [terms_vars_vars] at h
+  constructor
+  · intro p hp
+    rw [List.pairwise_map]
+    refine List.Pairwise.imp_of_mem ?_ (args_pairwise W D hD _ (terms_noFlat_vars vs) p.1)
+    intro q2 q2' h2 h2' hinc he
+    obtain ⟨α, e1, e2⟩ := same_row_compat W D vs p.1 p.1 q2.1 q2'.1 q2.2 q2'.2 h2 h2'
+      (hfinal p hp q2' h2') he
+    exact hinc α e1 e2
+  · refine List.Pairwise.imp_of_mem ?_ hpw
+    intro p p' hp hp' hinc x hx y hy he
+    simp only [List.mem_map] at hx hy
+    obtain ⟨q2, h2, rfl⟩ := hx
+    obtain ⟨q2', h2', rfl⟩ := hy
+    obtain ⟨α, e1, e2⟩ := same_row_compat W D vs p.1 p'.1 q2.1 q2'.1 q2.2 q2'.2 h2 h2'
+      (hfinal p' hp' q2' h2') he
+    exact hinc α
+      ((args_sound W D _ (terms_noFlat_vars vs) p.1 q2.1 q2.2 h2 α e1).1)
+      ((args_sound W D _ (terms_noFlat_vars vs) p'.1 q2'.1 q2'.2 h2' α e2).1)
+
+/-- **No row twice.** When every variable of the query is selected (and the domains list
+    distinct objects) the rows are pairwise different, so the row count is the number of
+    satisfying assignments. -/
+theorem c02_rows_nodup [Inhabited V] (q : Query V) (hf : q.noFlat = true)
+    (hD : ∀ v, (D v).Nodup) (vs : List VarId) (hsel : q.sel = vs.map Term.var)
+    (hall : ∀ v ∈ q.condVars, v ∈ vs) : (rows W D q).Nodup := by
+  obtain ⟨sel, cond⟩ := q
+  simp only at hsel
+  subst hsel
+  simp only [Query.noFlat, Bool.and_eq_true] at hf
+  rw [List.nodup_iff_pairwise_ne]
+  cases cond with
+  | none =>
+    simp only [rows]
+    refine nodup_of_outs W D hD vs _ (List.pairwise_singleton _ _) ?_
+    intro p hp w hw; simp at hp; subst hp; simp [bound, List.lookup] at hw
+  | some c =>
+    simp only [rows]
+    refine nodup_of_outs W D hD vs _ (cond_pairwise W D hD c hf.2 [] false) ?_
+    intro p hp w hw
+    rcases (cond_supp W D c hf.2 [] p.1 p.2 false hp).1 w hw with h | h
+    · simp [bound, List.lookup] at h
+    · exact hall w (by simpa [Query.condVars] using h)
+
 end Eql
